@@ -1,7 +1,9 @@
 package transformer
 
 import (
+	stderrors "errors"
 	"fmt"
+	"io"
 	"net/url"
 	"strings"
 
@@ -71,9 +73,30 @@ const (
 func TransformModFile(data string) (*ModFile, error) { //nolint:cyclop
 	yamlModFile := &YAMLModFile{}
 
-	err := yaml.Unmarshal([]byte(data), yamlModFile)
-	if err != nil {
+	// the file is one YAML document: what stands behind it is part of the file as well, a second
+	// document or text that does not parse is reported and not ignored
+	decoder := yaml.NewDecoder(strings.NewReader(data))
+
+	err := decoder.Decode(yamlModFile)
+	if err != nil && !stderrors.Is(err, io.EOF) {
 		return nil, err //nolint:wrapcheck
+	}
+
+	if err == nil {
+		var rest yaml.Node
+
+		err = decoder.Decode(&rest)
+		if err == nil {
+			return nil, &ModFileValidationMultipleError{Errors: []error{&ModFileValidationError{
+				Msg:    "unexpected second document, fga.mod is a single YAML document",
+				Line:   rest.Line - 1,
+				Column: rest.Column - 1,
+			}}}
+		}
+
+		if !stderrors.Is(err, io.EOF) {
+			return nil, err //nolint:wrapcheck
+		}
 	}
 
 	modFile := &ModFile{}
